@@ -389,6 +389,79 @@ theorem rounds (f g : Cls → κ → KeyDict α → Except PyErr (KeyDict α)) (
       · intro k hk
         rw [b2 k (fun c' hc' => hk c' (List.mem_cons_of_mem _ hc')), a2 k (hk c (List.mem_cons_self ..))]
 
+/-- one pass succeeds when the edit of every listed key succeeds on the entry the key has at the start -/
+theorem pass_keys_ok (f : κ → KeyDict α → Except PyErr (KeyDict α)) : ∀ (keys : List κ) (kc : KContent κ α), keys.Nodup →
+    (∀ k, k ∈ keys → ∃ a, f k (kc.get k) = .ok a) →
+    ∃ kc', (forIn (m := Except PyErr) keys kc fun (key : κ) (r : KContent κ α) =>
+        (fun a => ForInStep.yield (r.set key a)) <$> f key (r.get key)) = .ok kc'
+  | [], kc, _, _ => ⟨kc, rfl⟩
+  | key :: keys, kc, hnd, h => by
+    rw [List.nodup_cons] at hnd
+    obtain ⟨a, ha⟩ := h key (List.mem_cons_self ..)
+    have hrest : ∀ k, k ∈ keys → ∃ b, f k ((kc.set key a).get k) = .ok b := by
+      intro k hk
+      have hne : k ≠ key := fun e => hnd.1 (e ▸ hk)
+      have hg : (kc.set key a).get k = kc.get k := dictGet_dictSet_other kc key k a hne
+      rw [hg]
+      exact h k (List.mem_cons_of_mem _ hk)
+    obtain ⟨kc', hk'⟩ := pass_keys_ok f keys (kc.set key a) hnd.2 hrest
+    refine ⟨kc', ?_⟩
+    rw [List.forIn_cons, ha]
+    exact hk'
+
+/-- the two passes of a round succeed when reclassification followed by insertion succeeds for every listed key -/
+theorem two_passes_ok (f g : κ → KeyDict α → Except PyErr (KeyDict α)) (keys : List κ) (kc : KContent κ α) (hnd : keys.Nodup)
+    (h : ∀ k, k ∈ keys → ∃ a, (f k (kc.get k) >>= g k) = .ok a) :
+    ∃ kc', (do
+      let r1 ← forIn (m := Except PyErr) keys kc fun (key : κ) (r : KContent κ α) =>
+          (fun a => ForInStep.yield (r.set key a)) <$> f key (r.get key)
+      forIn keys r1 fun (key : κ) (r : KContent κ α) =>
+          (fun a => ForInStep.yield (r.set key a)) <$> g key (r.get key)) = .ok kc' := by
+  have hf : ∀ k, k ∈ keys → ∃ a, f k (kc.get k) = .ok a := by
+    intro k hk
+    obtain ⟨a, ha⟩ := h k hk
+    cases hfk : f k (kc.get k) with
+    | error e => rw [hfk] at ha; simp [bind, Except.bind] at ha
+    | ok b => exact ⟨b, rfl⟩
+  obtain ⟨r1, h1⟩ := pass_keys_ok f keys kc hnd hf
+  obtain ⟨a1, _⟩ := pass_keys f keys kc r1 hnd h1
+  have hg : ∀ k, k ∈ keys → ∃ a, g k (r1.get k) = .ok a := by
+    intro k hk
+    obtain ⟨a, ha⟩ := h k hk
+    rw [a1 k hk] at ha
+    exact ⟨a, ha⟩
+  obtain ⟨kc', h2⟩ := pass_keys_ok g keys r1 hnd hg
+  refine ⟨kc', ?_⟩
+  rw [h1]
+  exact h2
+
+/-- all rounds succeed when the two edits succeed for every visited key on the entry it has at the start -/
+theorem rounds_ok (f g : Cls → κ → KeyDict α → Except PyErr (KeyDict α)) (keysOf : Cls → List κ)
+    (body : Cls → KContent κ α → Except PyErr (ForInStep (KContent κ α)))
+    (hb : ∀ c kc, body c kc = ForInStep.yield <$> (do
+      let r1 ← forIn (m := Except PyErr) (keysOf c) kc fun (key : κ) (r : KContent κ α) =>
+          (fun a => ForInStep.yield (r.set key a)) <$> f c key (r.get key)
+      forIn (keysOf c) r1 fun (key : κ) (r : KContent κ α) =>
+          (fun a => ForInStep.yield (r.set key a)) <$> g c key (r.get key))) :
+    ∀ (l : List Cls) (kc : KContent κ α), (l.flatMap keysOf).Nodup →
+      (∀ c k, c ∈ l → k ∈ keysOf c → ∃ a, (f c k (kc.get k) >>= g c k) = .ok a) →
+      ∃ kc', forIn l kc body = .ok kc'
+  | [], kc, _, _ => ⟨kc, rfl⟩
+  | c :: l, kc, hnd, h => by
+    rw [List.flatMap_cons, List.nodup_append] at hnd
+    obtain ⟨hn1, hn2, hdis⟩ := hnd
+    obtain ⟨kc1, h1⟩ := two_passes_ok (f c) (g c) (keysOf c) kc hn1 (fun k hk => h c k (List.mem_cons_self ..) hk)
+    obtain ⟨_, a2⟩ := two_passes (f c) (g c) (keysOf c) kc kc1 hn1 h1
+    have hrest : ∀ c' k, c' ∈ l → k ∈ keysOf c' → ∃ a, (f c' k (kc1.get k) >>= g c' k) = .ok a := by
+      intro c' k hc' hk
+      have hnot : k ∉ keysOf c := fun hk' => hdis k hk' k (List.mem_flatMap.mpr ⟨c', hc', hk⟩) rfl
+      rw [a2 k hnot]
+      exact h c' k (List.mem_cons_of_mem _ hc') hk
+    obtain ⟨kc', h2⟩ := rounds_ok f g keysOf body hb l kc1 hn2 hrest
+    refine ⟨kc', ?_⟩
+    rw [List.forIn_cons, hb, h1]
+    exact h2
+
 /-- the keys one round of `_insert` visits: those of the classification dictionary of `other`, and in the round of the global
     constants also the keys only `self` has -/
 def roundKeys (oc : Content κ α) (missing : List κ) (c : Cls) : List κ :=
@@ -449,6 +522,40 @@ theorem insert_try_per_key (null : α) (ss : List Nat) (sn sd : Option Nat) (bas
   unfold keyStep
   exact rounds (keyRecl null ss sn bases) (keyIns null ss sn sd bases os on valid oc dim)
     (roundKeys oc ((KContent.keys sv kc0).filter fun key => !oks.contains key)) body hb valid kc0 kc' hnd h'
+
+/-- **the `try` block of `_insert` ends normally when every visited key can be reclassified and inserted** — it raises only if
+    `keyStep` raises for some visited key on the entry that key has at the start -/
+theorem insert_try_ok (null : α) (ss : List Nat) (sn sd : Option Nat) (bases : List String) (kc0 : KContent κ α)
+    (os : List Nat) (on : Option Nat) (oc : Content κ α) (dim : Nat) (valid sv : List Cls) (oks : List κ)
+    (hv : Py.get_valid_classes os = .ok valid) (hsv : Py.get_valid_classes ss = .ok sv) (hk : Py.get_keys os oc = .ok oks)
+    (hnd : (valid.flatMap (roundKeys oc ((KContent.keys sv kc0).filter fun key => !oks.contains key))).Nodup)
+    (hstep : ∀ c k, c ∈ valid → k ∈ roundKeys oc ((KContent.keys sv kc0).filter fun key => !oks.contains key) c →
+        ∃ a, keyStep null ss sn sd bases os on valid oc dim c k (kc0.get k) = .ok a) :
+    ∃ kc', Py.insert_try null ss sn sd bases kc0 os on oc dim = .ok kc' := by
+  unfold Py.insert_try
+  simp only [hv, hsv, hk, ok_bind', bind_pure_comp]
+  rw [bind_pure]
+  generalize hbd : (fun (other_classes : Cls) (__s : KContent κ α) => _) = body
+  have hb : ∀ c kc, body c kc = ForInStep.yield <$> (do
+      let r1 ← forIn (m := Except PyErr) (roundKeys oc ((KContent.keys sv kc0).filter fun key => !oks.contains key) c) kc
+        fun (key : κ) (r : KContent κ α) =>
+          (fun a => ForInStep.yield (r.set key a)) <$> keyRecl null ss sn bases c key (r.get key)
+      forIn (roundKeys oc ((KContent.keys sv kc0).filter fun key => !oks.contains key) c) r1 fun (key : κ) (r : KContent κ α) =>
+          (fun a => ForInStep.yield (r.set key a)) <$> keyIns null ss sn sd bases os on valid oc dim c key (r.get key)) := by
+    intro c kc
+    rw [← hbd]
+    unfold keyRecl keyIns
+    by_cases hc : c = gconst
+    · subst hc
+      have hgg : (gconst == gconst) = true := rfl
+      simp only [roundKeys, if_true, hgg, map_bind]
+      rfl
+    · have hc' : (c == gconst) = false := by simpa using hc
+      simp only [roundKeys, hc, hc', if_false, List.append_nil, Bool.false_eq_true, map_bind]
+      rfl
+  unfold keyStep at hstep
+  exact rounds_ok (keyRecl null ss sn bases) (keyIns null ss sn sd bases os on valid oc dim)
+    (roundKeys oc ((KContent.keys sv kc0).filter fun key => !oks.contains key)) body hb valid kc0 hnd hstep
 
 end perkey
 
